@@ -23,6 +23,7 @@ func init() {
 			"(D9) the client's name and tags — what $client / $ctag restricted rules match on — are handed to the filter for every found persistent client, not only for those with own settings. " +
 			"(D9, cont.) blocked services of a client with its own list: the global rules are discarded whenever the client brought its own list (also while its own schedule pauses blocking) and only then, the global list is applied before the client callback, and every application of a list of services is guarded by Contains(time.Now()) on the Schedule of that same BlockedServices value (the rules are shared with C04-D2 and C18-D3). " +
 			"(D9, cont. 2) every checker CheckHost hands the name to (blocked services, safe browsing, parental, safe search, rule lists) receives the lower-cased name, whatever the per-request switches are. " +
+			"(D7, cont.) once a protection pause has run out, UpdatedProtectionStatus reports enabled as a constant on every path — not the stored flag, which the background update switches later. " +
 			"Not decided: which names a rule set matches (urlfilter semantics), the exact synthetic RR content per mode and query type, values of per-client settings (C04), schedule instants (C18).",
 		RuleText:    "Stage list and checker list read from the slice literals in SSA; path guards; static reachability; enum/switch agreement from go/types constants.",
 		Assumptions: []string{"urlfilter.DNSEngine.MatchRequest semantics (external)", "dnsproxy calls the request handler once per admitted request"},
@@ -683,8 +684,11 @@ func c01Checkers(c *Ctx) {
 	if al != nil {
 		ok := false
 		for _, call := range core.CallsTo(al, "filtering.makeResult") {
-			if cst, isC := call.Arg(1).(*ssa.Const); isC && isConstNamed(p, cst, "filtering", "NotFilteredAllowList") {
-				ok = true
+			// the reason: whichever argument is of type Reason
+			for _, a := range call.Common.Args {
+				if cst, isC := a.(*ssa.Const); isC && core.NamedKey(cst.Type()) == "filtering.Reason" && isConstNamed(p, cst, "filtering", "NotFilteredAllowList") {
+					ok = true
+				}
 			}
 		}
 		r.Check(ok, "C01-D6", "allow-match-reason", p.FnPos(al), "an allow match yields NotFilteredAllowList", "an allow match no longer yields NotFilteredAllowList")
@@ -791,6 +795,51 @@ func c01Gates(c *Ctx) {
 				}
 			}
 		}
+	}
+	// a pause that has run out no longer counts: once the pause's end is not in the future, the status reported is
+	// "enabled" as such — not the stored flag, which the background update has not switched yet
+	if ups := p.Fn("(*dnsforward.Server).UpdatedProtectionStatus"); ups == nil {
+		r.Undecided("C01-D7", "UpdatedProtectionStatus", "-", "anchor not found")
+	} else {
+		gOver, nOver := core.CondEdges(ups, func(at core.Atom) (bool, bool) {
+			if at.Op != token.ILLEGAL {
+				return false, false
+			}
+			call, _, ok := core.CallResult(at.Base)
+			if !ok {
+				return false, false
+			}
+			isNow := func(v ssa.Value) bool { return core.IsCallResult(core.ResolveCellLoad(v), -1, "time.Now") }
+			switch core.CalleeKey(call.Common()) {
+			case "(time.Time).Before": // now.Before(until): the pause is over when false
+				if isNow(call.Common().Args[0]) {
+					return true, false
+				}
+			case "(time.Time).After": // until.After(now): over when false
+				if isNow(call.Common().Args[1]) {
+					return true, false
+				}
+			}
+			return false, false
+		})
+		var from []core.Point
+		for e := range gOver {
+			from = append(from, core.AfterEdge(e))
+		}
+		found, tr := true, []*ssa.BasicBlock(nil)
+		if len(from) > 0 {
+			found, tr, _ = core.Reach(core.Query{From: from, Target: func(in ssa.Instruction) bool {
+				ret, ok := core.AsReturn(in)
+				if !ok || len(ret.Results) < 1 {
+					return false
+				}
+				b, isC := core.ConstBool(core.ResolveCellLoad(core.ResolveLocalLoad(core.Res(ret, 0))))
+				return !(isC && b)
+			}})
+		}
+		r.Check(nOver > 0 && !found, "C01-D7", "expired-pause-reports-enabled", p.FnPos(ups),
+			"once the pause has run out the protection status reported is enabled, whatever the stored flag still says",
+			"after a pause has run out the status can still be reported as the stored flag (disabled until the background update has run): the first requests after the pause skip all filtering", p.TraceString(tr))
 	}
 	// engines are swapped, never nil'ed
 	nE := 0
